@@ -17,7 +17,9 @@ CFG = dict(
                 "ASCII PNM, padded binary PBM, interlaced and palette PNG) through every reading path of the real library under "
                 "ASan+UBSan and compares the results with the full read_image in the file's native type: every sub-rectangle "
                 "of images up to 8x8 and edge+seeded rectangles of larger ones (16 rectangle classes), read_and_convert_image "
-                "into 5 pixel types against pixelwise color_convert, scanline reader rows, read_view into a view inside a "
+                "into 5 pixel types against pixelwise color_convert, scanline reader rows under five access patterns of the "
+                "iterator (dereference every row; increment k times without dereferencing then dereference; dereference, skip, "
+                "dereference; std::advance; every 2nd/3rd row and each row twice -- every row obtained must equal that row of read_image), read_view into a view inside a "
                 "seeded arena (outside must stay untouched), any_image, FILE* / file name / std::istream devices, "
                 "read_image_info dimensions, too-small destination views (must throw, arena untouched). Observation of "
                 "bounded executions: other files, rectangles and destination types are not covered."),
@@ -45,6 +47,6 @@ CFG = dict(
         + [tu("c13_probe%d" % k, "harness/c13_probe.cpp", "asan", extra=["-DC13_PROBE=%d" % k], probe=name) for k, name in PROBES],
     runs=[run("c13_p%d" % k, shards=sh, min_cases={"quick": fl, "thorough": fl}, max_restarts=400) for k, _, sh, fl in PARTS],
     require_obs=["path.subrect", "path.convert", "path.scanline", "path.readview", "path.anyimage", "path.devices", "path.info",
-                 "path.toosmall", "toosmall.rejected", "device.FILEptr", "device.filename", "rect.xoff-shortw-yoff-shorth",
+                 "path.toosmall", "toosmall.rejected", "scanline.skip-then-deref", "scanline.deref-skip-deref", "scanline.advance", "scanline.alternate", "device.FILEptr", "device.filename", "rect.xoff-shortw-yoff-shorth",
                  "rect.x0-fullw-y0-fullh", "variant.rle8", "variant.interlaced-rgb8", "variant.P1-ascii-mono", "variant.rle32-ul-origin"],
 )
